@@ -27,6 +27,82 @@ impl<'a, T: Print> std::fmt::Display for AtDepth<'a, T> {
 	}
 }
 
+/// A user-defined container printed through the crate's public generic helpers
+/// (`pre_compute_array_size`, `print_array`, ...): lists and maps with holes, of which only the
+/// present members are printed. The measuring pass walks filtering iterators, whose size hint has
+/// an upper bound larger than the number of members.
+enum User {
+	Leaf(Value),
+	List(Vec<Option<User>>),
+	Map(Vec<(String, Option<User>)>),
+}
+
+impl User {
+	fn of(r: &RVal, depth: usize) -> User {
+		match r {
+			RVal::Arr(a) if depth % 3 != 2 => {
+				let mut items = Vec::new();
+				for (i, x) in a.iter().enumerate() {
+					if (i + depth) % 2 == 0 {
+						items.push(None);
+					}
+					items.push(Some(User::of(x, depth + 1)));
+				}
+				items.push(None);
+				User::List(items)
+			}
+			RVal::Obj(e) if depth % 3 != 2 => {
+				let mut entries = Vec::new();
+				for (i, (k, x)) in e.iter().enumerate() {
+					if (i + depth) % 2 == 1 {
+						entries.push(("hole".to_string(), None));
+					}
+					entries.push((k.clone(), Some(User::of(x, depth + 1))));
+				}
+				entries.push((String::new(), None));
+				User::Map(entries)
+			}
+			x => User::Leaf(from_rval(x)),
+		}
+	}
+}
+
+impl json_syntax::print::PrecomputeSize for User {
+	fn pre_compute_size(&self, options: &json_syntax::print::Options, sizes: &mut Vec<json_syntax::print::Size>) -> json_syntax::print::Size {
+		match self {
+			User::Leaf(v) => v.pre_compute_size(options, sizes),
+			User::List(items) => json_syntax::print::pre_compute_array_size(items.iter().filter_map(|x| x.as_ref()), options, sizes),
+			User::Map(entries) => json_syntax::print::pre_compute_object_size(entries.iter().filter_map(|(k, v)| v.as_ref().map(|v| (k.as_str(), v))), options, sizes),
+		}
+	}
+}
+
+impl json_syntax::print::PrintWithSize for User {
+	fn fmt_with_size(&self, f: &mut std::fmt::Formatter, options: &json_syntax::print::Options, indent: usize, sizes: &[json_syntax::print::Size], index: &mut usize) -> std::fmt::Result {
+		match self {
+			User::Leaf(v) => v.fmt_with_size(f, options, indent, sizes, index),
+			User::List(items) => {
+				let present: Vec<&User> = items.iter().filter_map(|x| x.as_ref()).collect();
+				json_syntax::print::print_array(present, f, options, indent, sizes, index)
+			}
+			User::Map(entries) => {
+				let present: Vec<(&str, &User)> = entries.iter().filter_map(|(k, v)| v.as_ref().map(|v| (k.as_str(), v))).collect();
+				json_syntax::print::print_object(present, f, options, indent, sizes, index)
+			}
+		}
+	}
+}
+
+impl Print for User {
+	fn fmt_with(&self, f: &mut std::fmt::Formatter, options: &json_syntax::print::Options, indent: usize) -> std::fmt::Result {
+		use json_syntax::print::{PrecomputeSize, PrintWithSize};
+		let mut sizes = Vec::new();
+		self.pre_compute_size(options, &mut sizes);
+		let mut index = 0;
+		self.fmt_with_size(f, options, indent, &sizes, &mut index)
+	}
+}
+
 fn opts_json(o: &POpts) -> serde_json::Value {
 	let ind = match o.indent {
 		PIndent::Spaces(n) => json!({"spaces": n}),
@@ -245,6 +321,9 @@ fn c08_one(rep: &mut Report, fam: &str, r: &RVal) {
 		spec!("{:>12}");
 		spec!("{:*^9.2}");
 		spec!("{:010.1}");
+		// the alternate flag: Display is a compact rendering whatever the flags
+		spec!("{:#}");
+		spec!("{:#12.1}");
 	}
 	for (name, got) in forms {
 		rep.count("renderings_compared", 1);
@@ -312,6 +391,21 @@ pub fn run_c08(cfg: &Config) -> i32 {
 		rep
 	});
 	total.merge(rep);
+	// runs of 1..40 copies of one character of each class (all of them needing the long escape, the short
+	// escape, no escape, 2-4 bytes), as value and as key
+	{
+		let rep = parallel(cfg.threads, CLASS_ALPHABET.len(), |ci| {
+			let mut rep = Report::new();
+			let c = CLASS_ALPHABET[ci];
+			for k in 1..=40usize {
+				let s: String = std::iter::repeat(c).take(k).collect();
+				c08_one(&mut rep, "runs-of-one-character", &RVal::Arr(vec![RVal::Str(s.clone()), RVal::Obj(vec![(s, RVal::Null)])]));
+			}
+			rep.distinct_by_construction(40);
+			rep
+		});
+		total.merge(rep);
+	}
 	// long strings: an escape / multi-byte character at every offset up to the bound, and long plain runs after an escape
 	let max_long = if thorough { 2100 } else { 1100 };
 	let rep = parallel(cfg.threads, 16, |sh| {
@@ -545,6 +639,20 @@ impl PrintMon {
 							);
 							break;
 						}
+					}
+				}
+				// the same content held by a user-defined container that prints itself through the
+				// public generic helpers
+				if matches!(r, RVal::Arr(_) | RVal::Obj(_)) {
+					let ro = o.to_real();
+					let got = guard(|| User::of(r, 0).print_with(ro).to_string());
+					self.rep.count("layouts_compared_through_a_user_container", 1);
+					if got.as_deref() != Ok(want.as_str()) {
+						self.rep.violation(
+							"C13:layout-differs:user-container",
+							format!("[{}] content {} under {} held by a user container printed with pre_compute_array_size / print_array / ...: printed {:?}, documented layout `{}`", fam, show(doc_of(r).as_bytes()), opts_json(o), got.map(|g| show(g.as_bytes())), show(want.as_bytes())),
+							case_json("print", r, o),
+						);
 					}
 				}
 				let ro = o.to_real();
@@ -847,6 +955,50 @@ fn run_print(cfg: &Config, id: &'static str) -> i32 {
 			}
 			mon.rep.max("largest_indentation_chars", (depth * 255) as u64);
 		}
+		// limits at the ends of their range
+		for (li, lim) in [PLimit::Item(usize::MAX), PLimit::ItemOrWidth(usize::MAX, 12), PLimit::ItemOrWidth(2, usize::MAX), PLimit::Width(usize::MAX), PLimit::ItemOrWidth(usize::MAX, usize::MAX), PLimit::Item(usize::MAX - 1), PLimit::Width(0), PLimit::ItemOrWidth(0, 0)].into_iter().enumerate() {
+			for _ in 0..3 {
+				let r = gen_layout_value(&mut rng);
+				let v = from_rval(&r);
+				let mut o = if (li + sh) % 2 == 0 { POpts::pretty() } else { pr::gen_opts(&mut rng) };
+				o.array_limit = Some(lim);
+				o.object_limit = if sh % 3 == 0 { None } else { Some(lim) };
+				mon.one("extreme-limits", &r, &v, &o);
+				mon.rep.distinct_by_construction(1);
+			}
+		}
+		// a value printed by a caller that is itself very deep (`fmt_with` at a large base depth)
+		if sh < 12 {
+			let depth = [1000usize, 16_383, 16_384, 21_845, 21_846, 32_767, 32_768, 33_000, 65_535, 65_536, 70_000, 131_072][sh];
+			for (ri, doc) in ["[1]", "{\"a\":[]}", "[[1,2],{\"k\":null}]", "7"].iter().enumerate() {
+				let r = mon.reader.read(doc.as_bytes(), true).root.unwrap();
+				let v = from_rval(&r);
+				for indent in [PIndent::Spaces(1), PIndent::Spaces(2), PIndent::Spaces(4), PIndent::Tabs(1), PIndent::Tabs(2)] {
+					let mut o = POpts::pretty();
+					o.indent = indent;
+					if ri % 2 == 0 {
+						o.array_limit = Some(PLimit::Always);
+						o.object_limit = Some(PLimit::Always);
+					}
+					let ro = o.to_real();
+					let mut want = String::new();
+					pr::layout(&r, &o, depth, &mut want);
+					let got = guard(|| AtDepth(&v, ro, depth).to_string());
+					mon.rep.evaluations += 1;
+					mon.rep.distinct_by_construction(1);
+					mon.rep.count("layouts_compared_at_a_base_depth", 1);
+					mon.rep.max("largest_base_depth", depth as u64);
+					if got.as_deref() != Ok(want.as_str()) {
+						let brief = |t: &str| format!("{} chars, {} lines, ends `{}`", t.chars().count(), t.lines().count(), show(t[t.len().saturating_sub(12)..].as_bytes()));
+						mon.rep.violation(
+							if mon.c04 { "C04:panic-or-differs:fmt_with" } else { "C13:layout-differs:fmt_with" },
+							format!("[deep-base-indentation] value {} under {} through fmt_with at depth {}: printed {:?}, documented layout: {}", doc, opts_json(&o), depth, got.map(|g| brief(&g)), brief(&want)),
+							json!({"sub": "base-depth", "value_compact": doc, "options": opts_json(&o), "depth": depth}),
+						);
+					}
+				}
+			}
+		}
 		// large spacing values in every field, one at a time and together
 		for big in [31usize, 32, 33, 64, 100, 255, 256] {
 			for f in 0..pr::N_FIELDS {
@@ -911,6 +1063,57 @@ fn run_print(cfg: &Config, id: &'static str) -> i32 {
 		rep
 	});
 	total.merge(rep);
+
+	// values obtained through `Deserialize for Value` from a foreign deserializer that hands over the
+	// number token map with an arbitrary string: whatever value comes out must print as valid JSON
+	if c04 {
+		use serde::Deserialize;
+		let mut rep = Report::new();
+		let mut rd = Reader::new();
+		let toks = ["0", "12", "-1.5e3", "1e", "01", "1.", "-", "+1", "0x1", "NaN", "Infinity", "1 ", " 1", "", "1,2", "1e+", ".5", "1.e2", "--1", "1e5", "-0", "1E-7", "true", "[1]", "\"1\"", "1\n", "9".repeat(40).as_str(), "1_000"].map(String::from);
+		for tok in toks.iter() {
+			for nested in [false, true] {
+				rep.evaluations += 1;
+				rep.distinct_by_construction(1);
+				let got = guard(|| {
+					let inner = serde::de::value::MapDeserializer::<_, serde::de::value::Error>::new(std::iter::once(("$serde_json::private::Number", tok.as_str())));
+					if nested {
+						Value::deserialize(serde::de::value::SeqDeserializer::<_, serde::de::value::Error>::new(std::iter::once(inner)))
+					} else {
+						Value::deserialize(inner)
+					}
+				});
+				let v = match got {
+					Ok(Ok(v)) => v,
+					Ok(Err(_)) => {
+						rep.count("number_token_strings_refused", 1);
+						continue;
+					}
+					Err(p) => {
+						rep.violation("C04:panic", format!("[values-through-the-serde-number-token] deserializing the token map with {:?} panicked: {}", tok, p), json!({"sub": "number-token", "token": tok, "nested": nested}));
+						continue;
+					}
+				};
+				rep.count("number_token_strings_accepted", 1);
+				for (what, text) in [("compact", guard(|| v.compact_print().to_string())), ("pretty", guard(|| v.pretty_print().to_string()))] {
+					let ok = match &text {
+						Ok(t) => rd.read(t.as_bytes(), false).accepts(Opts::STRICT) && matches!(guard(|| Value::parse_str(t).map(|x| x.0)), Ok(Ok(back)) if back == v),
+						Err(_) => false,
+					};
+					if !ok {
+						rep.violation(
+							"C04:invalid-output:value-from-deserialize",
+							format!("[values-through-the-serde-number-token] the value {:?} obtained by deserializing the number token map with {:?} prints ({}) as {:?}, which is not a valid document that parses back to it", v, tok, what, text),
+							json!({"sub": "number-token", "token": tok, "nested": nested}),
+						);
+						break;
+					}
+				}
+			}
+		}
+		rep.count("family:values-through-the-serde-number-token", rep.evaluations);
+		total.merge(rep);
+	}
 
 	let (rule, assumptions) = if c04 {
 		(
@@ -1004,6 +1207,16 @@ pub fn replay_case(id: &str, case: &serde_json::Value) -> Option<Vec<String>> {
 			let v = from_rval(&r);
 			mon.one("replay", &r, &v, &o);
 			Some(mon.rep.violations.iter().map(|v| format!("[{}] {}", v.signature, v.what)).collect())
+		}
+		"base-depth" => {
+			let o = opts_from_json(case.get("options")?)?;
+			let depth = case.get("depth")?.as_u64()? as usize;
+			let v = from_rval(&r);
+			let mut want = String::new();
+			pr::layout(&r, &o, depth, &mut want);
+			let ro = o.to_real();
+			let got = guard(|| AtDepth(&v, ro, depth).to_string());
+			Some(if got.as_deref() != Ok(want.as_str()) { vec![format!("[{}:layout-differs:fmt_with] printing at base depth {} differs from the documented layout (or panics): {:?}", id, depth, got.map(|g| g.len()))] } else { vec![] })
 		}
 		_ => None,
 	}
